@@ -36,7 +36,7 @@ def shards(tier):
 
 def required_counters(tier):
     d = {"transform." + t: 50 for t in TRANSFORMS}
-    d.update({"eager.accept": 50, "eager.reject": 50, "value_independence": 100, "pytree_args": 20, "tracer_checks_observed": 500, "oracle_crosscheck": 100, "param_named_like_symbolic_name": 30, "question.cases": 50, "dict.cases": 50, "rechecked_after_warmup": 100, "mutation.cases": 50, "weak.cases": 100, "rank0_any.cases": 50, "local_string_annotations.cases": 50, "dataclass.cases": 100, "typevar.mixed_tracer_concrete": 200})
+    d.update({"eager.accept": 50, "eager.reject": 50, "value_independence": 100, "pytree_args": 20, "tracer_checks_observed": 500, "oracle_crosscheck": 100, "param_named_like_symbolic_name": 30, "question.cases": 50, "dict.cases": 50, "rechecked_after_warmup": 100, "mutation.cases": 50, "weak.cases": 100, "buffer_and_key.cases": 30, "rank0_any.cases": 50, "local_string_annotations.cases": 50, "dataclass.cases": 100, "typevar.mixed_tracer_concrete": 200})
     return d
 
 
@@ -501,6 +501,49 @@ def run_mixed_case(rec, rng, rngkey):
                 rec.violation("trace-vs-eager", dict(case, transform=t), f"TypeVar array types, sizes {n},{m}: {t} {v}, eager {eager}", mechanism=f"typevar-trace-{v.split(':')[0]}-eager-{eager}")
 
 
+def run_buffer_and_key_case(rec, rng, rngkey):
+    """only shape and dtype count: (a) an array whose buffer has been deleted / donated still has both (the eager call is
+    judged like the abstract call); (b) a new-style typed PRNG key is not a uint32 array - eagerly or traced"""
+    import beartype
+    import jax
+    import jax.numpy as jnp
+    import typeguard
+
+    import jaxtyping
+    from jaxtyping import jaxtyped
+
+    def attempt(thunk):
+        try:
+            thunk()
+            return "accept"
+        except Exception as e:  # noqa
+            return classify(e)
+
+    n = rng.choice((2, 3))
+    for cname, checker in (("typeguard", typeguard.typechecked), ("beartype", beartype.beartype)):
+        ns = {"__name__": "jtv_c17_generated", "jnp": jnp, "X": jaxtyping.Float[jax.Array, "n"], "K": jaxtyping.UInt32[jax.Array, "2"], "KK": jaxtyping.Key[jax.Array, ""]}
+        real.exec_src("def f(x: X) -> X:\n    return x\ndef g(key: K, x: X):\n    return x\ndef h(key: KK, x: X):\n    return x\n", ns)
+        f, g, h = (jaxtyped(typechecker=checker)(ns[k]) for k in ("f", "g", "h"))
+        x = jax.device_put(np.zeros((n,), "float32"))
+        dead = jax.device_put(np.ones((n,), "float32"))
+        dead.delete()
+        case = {"buffer_case": True, "n": n, "checker": cname, "rngkey": rngkey}
+        rec.count("buffer_and_key.cases")
+        rec.case(("buffer-key", n, cname), True)
+        e_dead = attempt(lambda: f(dead))
+        a_dead = attempt(lambda: jax.eval_shape(f, dead))
+        if e_dead != "accept" or a_dead != "accept":
+            rec.violation("trace-vs-eager", dict(case, what="deleted-buffer"), f"f(x: Float[Array,'n']) on an array whose buffer was deleted (shape and dtype intact): eager {e_dead}, eval_shape {a_dead}; expected accept for both", mechanism="verdict-depends-on-buffer-state")
+        key = jax.random.key(0)
+        old_key = jax.random.PRNGKey(0)
+        for fn_name, fn, k, want in (("g(key: UInt32[Array,'2'])", g, key, "reject"), ("g(key: UInt32[Array,'2'])", g, old_key, "accept"), ("h(key: Key[Array,''])", h, key, "accept"), ("h(key: Key[Array,''])", h, old_key, "reject")):
+            kind = "typed key" if k is key else "old-style uint32 key"
+            res = {"eager": attempt(lambda: fn(k, x)), "jit": attempt(lambda: jax.jit(fn)(k, x)), "eval_shape": attempt(lambda: jax.eval_shape(fn, k, x)), "vmap": attempt(lambda: jax.vmap(fn, in_axes=(0, None))(jax.random.split(k, 2) if k is key else jnp.stack([k, k]), x))}
+            rec.count("transform.jit")
+            if set(res.values()) != {want}:
+                rec.violation("trace-vs-eager", dict(case, what=fn_name, key=kind), f"{fn_name} called with a {kind}: {res}, expected {want} everywhere", mechanism="prng-key-" + ("eager" if res["eager"] != want else "traced") + "-deviates")
+
+
 def run_weak_case(rec, rng, rngkey):
     """weakly typed values (Python scalars handed to jit / grad / eval_shape, jnp.asarray(2.0), jnp.full): the
     tracer carries a shape and a dtype; `weak_type` is not part of either - the verdict is the one an eager call on
@@ -618,6 +661,8 @@ def run_shard(rec, seed, shard, tier):
         if k % 4 == 3:
             run_weak_case(rec, random.Random(key + "/w"), key + "/w")
             run_dataclass_case(rec, random.Random(key + "/dc"), key + "/dc")
+            if k % 8 == 3:
+                run_buffer_and_key_case(rec, random.Random(key + "/bk"), key + "/bk")
     r = random.Random(f"{seed}/C17/{shard['i']}/0")
     s = GS.gen_signature(r, max_params=3, p_ret=0.8)
     rec.sample({"sig": s, "transforms": TRANSFORMS})
@@ -626,7 +671,9 @@ def run_shard(rec, seed, shard, tier):
 def replay(rec, case):
     warnings.filterwarnings("ignore")
     install_spy()
-    if case.get("dataclass_case"):
+    if case.get("buffer_case"):
+        run_buffer_and_key_case(rec, random.Random(case["rngkey"]), case["rngkey"])
+    elif case.get("dataclass_case"):
         run_dataclass_case(rec, random.Random(case["rngkey"]), case["rngkey"])
     elif case.get("weak_case"):
         run_weak_case(rec, random.Random(case["rngkey"]), case["rngkey"])
